@@ -1,8 +1,25 @@
 from props import cfg
 
 CFG = cfg('C11', refine=['Refine_armor'], extract='Ex_C11', driver='c11',
-          rule='TBD',
-          trusted=['Spec/Rfc4880_cleartext.v (RFC 4880 section 7 transcription)'],
-          assumptions=['TBD'])
+          rule='texts = fixed adversarial list + every text over {-, SP, LF, CR, a, TAB} up to length 5 (quick) / 7 (thorough) + random texts built from '
+               '"-", "- ", "From ", armor-looking lines, Hash: lines, blanks, empty lines, LF / CRLF / CR endings, with / without final newline, non-ASCII, non-BMP, '
+               '10 kB lines: dash_escape / dash_unescape / signed octets (through PGPSignature.hashdata) against model and RFC 7.1 transcription; full flow '
+               '(every text up to length 3 / 4 + 250 / 4000 random) x 6 hash algorithms x 1-3 signers x ed25519 / p256 / rsa2048 / dsa1024 (thorough: 10 keys): '
+               'str(message) vs model render, Hash: header, read back (LF and CRLF transport) vs model read, PGPKey.verify per signer, independent verification '
+               '(own packet parser + hashlib over the MODEL\'s RFC 7.1 octets + cryptography) of every signature, independently signed RFC 7.1 messages verified by PGPy; '
+               'failures are classified by the model\'s decidable defect predicates. distinct = distinct canonical (suite, input)',
+          trusted=['Spec/Rfc4880_cleartext.v (RFC 4880 section 7.1 transcription: dash escaping, canonical text with trailing blanks removed)',
+                   'pinned texts in tools/harness/c10.py + c11.py (armor expression, dash_escape / dash_unescape, cleartext template, parse, hashdata / sign / verify statements)',
+                   'independent signer / verifier in tools/harness/c11.py (cryptography + hashlib on raw key numbers)'],
+          assumptions=['Python runtime reached only through the correspondence run: the re engine (re.subn with MULTILINE ^, the armor expression), utf-8 / latin-1 codecs, sorted(set())',
+                       'signature packet encoding and hashing of the trailer are C01 / C02 territory; here the packet is a payload and the trailer is parsed independently',
+                       'GnuPG 2.2.40 is used as an optional sample only (recorded in notes)'])
 
-TEXT = ('TBD', 'DESIGN.md 5 C11', 'machine-checked proof in Rocq (Coq 8.16.1) + AST translator + extracted-model correspondence')
+TEXT = ('Rocq theorems (Props/C11.v, closed under the global context): dash_unescape (dash_escape t) = t for every text; dash_escape = RFC 7.1 escaping; every escaped line is '
+        'safe and a safe line opens no armor block; the rendered frame read back gives the Hash: list, headers, signature packets and the text up to one final CR for every '
+        'ASCII text, every header set, every payload (by the same line-oriented reader as C10); signed octets = RFC 7.1 octets <-> no line ends in SP / TAB; Hash: header lists '
+        'exactly the algorithms used; characterisation: outside the three decidable defect classes text and RFC octets are preserved, inside each class a refutation witness '
+        '(trailing blanks signed, non-ASCII text never readable, final lone CR dropped) + the pre-fix CRLF-transport reader refuted. Tie: pinned sources + correspondence of the '
+        'extracted model with PGPMessage / PGPKey.sign / verify + independent signer and verifier.',
+        'DESIGN.md 5 C11',
+        'machine-checked proof in Rocq (Coq 8.16.1) + AST translator + extracted-model correspondence')
